@@ -727,7 +727,13 @@ func (c *c16Ctx) crashRun(w *c16Run) {
 				p := points[i]
 				meta := c16MetaOf(j, p)
 				dbh := c16OpsHash(ops, meta.DBN)
-				for _, im := range j.Images(p, true) {
+				// dirty-subset images: everywhere in the thorough tier, in the quick tier
+				// for the single-journal workloads only (they are 3/4 of all images)
+				ims := j.Images(p, true)
+				if !thorough && w.cfg.WL == "race" {
+					ims = append(j.Images(p, false), j.TornImages(p)...)
+				}
+				for _, im := range ims {
 					cc := &c16Case{Cfg: w.cfg, J: j, P: p, Im: im, Ops: ops, L: w.L, meta: meta}
 					// dedupe BEFORE the start-up: equal (image, store, acks, L) give equal verdicts
 					mem := cc.build()
